@@ -278,6 +278,34 @@ PROPS["C07"] = {
     "goals_not_proved": ["C07_aggregator_verifier (aggregator-side wrapper = this function with e = current - start): not modelled here"],
 }
 
+PROPS["C06"] = {
+    "lean_modules": ["MithrilModel.Properties.C06"],
+    "theorems": ["C06.C06_perm_close", "C06.C06_perm_avk", "C06.C06_perm_slot", "C06.C06_overflow", "C06.C06_paths",
+                 "RegClose.close_perm", "RegModel.avk_perm", "C09.C09_stm_root_injective"],
+    "level_text": "Order independence of the closed registration, the total stake, the outcome class, the aggregate key and every signer slot is "
+                  "a Lean theorem (sorting a permutation by the strict total order (stake, key bytes) gives the same list), and distinct "
+                  "registration sets give distinct roots by the C09 root-injectivity theorem. The model computes the REAL aggregate key "
+                  "(sorting + Merkle tree with the Lean Blake2b-256) and is compared bit for bit, together with every party's slot, with "
+                  "the real STM registration + clerk for all permutations of up to 4 parties and sampled ones up to 10 (equal stakes, "
+                  "neighbouring keys, totals at the 2^64 boundary), and with SignerBuilder::new on certified fixtures, also through the "
+                  "JSON encodings of signer lists and of the key.",
+    "level_note": "Keys are modelled as the big-endian number of their 96 bytes (the code's byte-wise comparison on equal lengths). The "
+                  "three nodes' paths all go through SignerBuilder::new -> close_registration; the client's stake-distribution message path "
+                  "is the same function and is not separately exercised here.",
+    "harness": [("harness", "c06")],
+    "anchors": ["mithril-stm/src/protocol/key_registration/register.rs", "mithril-stm/src/protocol/key_registration/closed_registration_entry.rs",
+                "mithril-stm/src/proof_system/concatenation/aggregate_key.rs", "mithril-stm/src/membership_commitment/merkle_tree/tree.rs",
+                "mithril-common/src/protocol/signer_builder.rs"],
+    "rule": "set = 1-10 real BLS keys (random or neighbours in byte order) with stakes all equal / alternating / small with zeros / near 2^63 / "
+            "total at 2^64-1 / random; case = one arrival order (all orders for <= 4 parties, 8 (30 thorough) sampled above), plus "
+            "SignerBuilder on 5 (25) KES-certified fixtures in shuffled orders and through JSON; all non-trivial; distinct request lines",
+    "trivial_tags": [],
+    "trusted_base": ["rustc/cargo; harness bin c06; blst; serde_json"],
+    "assumptions": [],
+    "goals_not_proved": ["C06_dup_party_note (one party listed twice under different stakes: last entry wins) is outside the honest input space and not stated",
+                         "C06_codec (key codec round trip) is checked by S only"],
+}
+
 
 # property configurations contributed as separate files: props.d/Cxx.py defines `CONFIG = {...}`
 import glob as _glob, os as _os, importlib.util as _ilu
